@@ -117,7 +117,8 @@ func buildHello(c *ncCase) []byte {
 
 var ncArgPool = []string{"running", "candidate", "startup", "<interfaces xmlns=\"urn:x\"><interface><name>Gi0/0</name></interface></interfaces>",
 	"<a b=\"c\" xmlns:d=\"urn:d\"><d:e/></a>", "<cfg><empty></empty><ws>  </ws><t>é日本</t></cfg>", "/if:interfaces/if:interface[if:name='eth0']",
-	"<x><y attr=\"v\"> </y><z></z></x>", "<target><candidate xyz/></target>", "<!-- c --><q>1 &lt; 2 &amp; 3</q>", "label-1", "a<b", ""}
+	"<x><y attr=\"v\"> </y><z></z></x>", "<target><candidate xyz/></target>", "<!-- c --><q>1 &lt; 2 &amp; 3</q>", "label-1", "a<b", "",
+	"<description>alarm at 95% of 10G</description>", "<path>net%20ops/%%/100%</path>", "/if:interface[load>90%d]"}
 
 // genXML: a random element tree for configuration payloads and subtree filters.  Names come from a
 // small set in which some names are prefixes of others (vlan / vlan-name, interface / interface-ref,
@@ -139,7 +140,7 @@ func genXML(r *sim.Rng, depth int) string {
 	case 2:
 		return "<" + n + attrs + "/>"
 	case 3:
-		return "<" + n + attrs + ">" + r.Pick([]string{"text", "1", "é", "a b"}) + "</" + n + ">"
+		return "<" + n + attrs + ">" + r.Pick([]string{"text", "1", "é", "a b", "95% o", "%s%d", "100%"}) + "</" + n + ">"
 	}
 	if depth <= 0 {
 		return "<" + n + attrs + "/>"
